@@ -1,13 +1,21 @@
-// Known findings of C05 that are recognised by REPAIRING esbuild's output: each listed defect has a
-// narrow static signature on the input plus a mechanical edit of the emitted code that undoes exactly
-// that defect. A failing case is attributed to the finding only when its signature matches AND the
-// repaired output behaves like the original program; any other difference stays a violation.
+// Known findings of C05 that are recognised mechanically. Every listed defect has a narrow static
+// signature plus one of two confirmations:
+//
+//   - an OUTPUT REPAIR: a mechanical edit of esbuild's output that undoes exactly that defect; the
+//     failing case is attributed to the finding when the repaired output behaves like the original;
+//   - an INPUT REWRITE: the construct named by the signature is replaced, in the input, by a spelling
+//     that V8 itself shows to be equivalent (the native trace must stay identical); the failing case is
+//     attributed to the finding when the rewritten program lowers correctly (or fails only by other
+//     listed findings).
+//
+// Anything that still differs after these steps stays a violation.
 package c05
 
 import (
 	"sort"
 	"strings"
 
+	"github.com/evanw/esbuild/pkg/api"
 	"github.com/evanw/esbuild/verif/jsref"
 	"github.com/evanw/esbuild/verif/jsutil"
 )
@@ -17,23 +25,28 @@ type edit struct {
 	ins     string
 }
 
-func applyEdits(src string, edits []edit) string {
-	sort.SliceStable(edits, func(i, j int) bool { return edits[i].at > edits[j].at })
+// applyEdits applies non-overlapping edits; nested edits (one inside the deleted range of another) are
+// refused by returning ok=false.
+func applyEdits(src string, edits []edit) (string, bool) {
+	sort.SliceStable(edits, func(i, j int) bool {
+		if edits[i].at != edits[j].at {
+			return edits[i].at > edits[j].at
+		}
+		return edits[i].del > edits[j].del
+	})
+	limit := len(src) + 1
 	for _, e := range edits {
-		if e.at < 0 || e.at+e.del > len(src) {
-			continue
+		if e.at < 0 || e.at+e.del > len(src) || e.at+e.del > limit {
+			return src, false
 		}
 		src = src[:e.at] + e.ins + src[e.at+e.del:]
+		if e.del > 0 {
+			limit = e.at
+		} else {
+			limit = e.at + 1
+		}
 	}
-	return src
-}
-
-func isLoop(n *jsref.Node) bool {
-	switch n.Type {
-	case jsref.NFor, jsref.NForIn, jsref.NForOf, jsref.NWhile, jsref.NDoWhile:
-		return true
-	}
-	return false
+	return src, true
 }
 
 func isFunctionBoundary(n *jsref.Node) bool {
@@ -44,170 +57,117 @@ func isFunctionBoundary(n *jsref.Node) bool {
 	return false
 }
 
-func classHasPrivateMember(n *jsref.Node) bool {
-	for _, m := range n.List {
-		if m != nil && (m.Type == jsref.NField || m.Type == jsref.NMethod) && m.A != nil && m.A.Type == jsref.NPrivateName {
-			return true
-		}
+func isClass(n *jsref.Node) bool { return n.Type == jsref.NClassDecl || n.Type == jsref.NClassExpr }
+
+func stripParens(n *jsref.Node) *jsref.Node {
+	for n != nil && n.Type == jsref.NParen {
+		n = n.A
 	}
-	return false
+	return n
+}
+
+func isSuperMember(n *jsref.Node) bool {
+	n = stripParens(n)
+	return n != nil && (n.Type == jsref.NMember || n.Type == jsref.NIndex) && n.A != nil && n.A.Type == jsref.NSuper
 }
 
 // walkRepeated visits every node and tells whether it lies in a part of a loop that is evaluated once per
 // iteration (body, test, update, per-iteration head of for-in/of) within the same function activation.
-// body is true when every enclosing repeated part is a loop body.
-func walkRepeated(n *jsref.Node, repeated, head bool, fn func(n *jsref.Node, repeated, head bool)) {
+func walkRepeated(n *jsref.Node, repeated bool, fn func(n *jsref.Node, repeated bool)) {
 	if n == nil {
 		return
 	}
-	fn(n, repeated, head)
+	fn(n, repeated)
 	if isFunctionBoundary(n) {
 		// a new activation per call: parameters and body are not "repeated by a loop of this activation"
 		for _, c := range n.List {
-			walkRepeated(c, false, false, fn)
+			walkRepeated(c, false, fn)
 		}
-		walkRepeated(n.A, false, false, fn)
-		walkRepeated(n.B, false, false, fn)
+		walkRepeated(n.A, false, fn)
+		walkRepeated(n.B, false, fn)
 		return
 	}
-	if (n.Type == jsref.NMethod) && n.B != nil {
-		walkRepeated(n.A, repeated, head, fn) // computed key: evaluated with the class
-		walkRepeated(n.B, false, false, fn)
+	if n.Type == jsref.NMethod && n.B != nil {
+		walkRepeated(n.A, repeated, fn) // computed key: evaluated with the class
+		walkRepeated(n.B, false, fn)
 		return
 	}
 	if n.Type == jsref.NField && !n.Has(jsref.FlagStatic) {
-		walkRepeated(n.A, repeated, head, fn)
-		walkRepeated(n.B, false, false, fn) // instance initialisers run per construction
+		walkRepeated(n.A, repeated, fn)
+		walkRepeated(n.B, false, fn) // instance initialisers run per construction
 		return
 	}
 	switch n.Type {
 	case jsref.NFor:
-		walkRepeated(n.A, repeated, head, fn)
-		walkRepeated(n.B, true, true, fn)
-		walkRepeated(n.C, true, true, fn)
-		walkRepeated(n.D, true, head, fn)
+		walkRepeated(n.A, repeated, fn)
+		walkRepeated(n.B, true, fn)
+		walkRepeated(n.C, true, fn)
+		walkRepeated(n.D, true, fn)
 		return
 	case jsref.NForIn, jsref.NForOf:
-		walkRepeated(n.A, true, true, fn)
-		walkRepeated(n.B, repeated, head, fn)
-		walkRepeated(n.D, true, head, fn)
+		walkRepeated(n.A, true, fn)
+		walkRepeated(n.B, repeated, fn)
+		walkRepeated(n.D, true, fn)
 		return
 	case jsref.NWhile, jsref.NDoWhile:
-		walkRepeated(n.A, true, true, fn)
-		walkRepeated(n.D, true, head, fn)
+		walkRepeated(n.A, true, fn)
+		walkRepeated(n.D, true, fn)
 		return
 	}
-	walkRepeated(n.A, repeated, head, fn)
-	walkRepeated(n.B, repeated, head, fn)
-	walkRepeated(n.C, repeated, head, fn)
-	walkRepeated(n.D, repeated, head, fn)
+	walkRepeated(n.A, repeated, fn)
+	walkRepeated(n.B, repeated, fn)
+	walkRepeated(n.C, repeated, fn)
+	walkRepeated(n.D, repeated, fn)
 	for _, c := range n.List {
-		walkRepeated(c, repeated, head, fn)
+		walkRepeated(c, repeated, fn)
 	}
 }
 
-// privateClassInLoop: signature of C05-private-names-shared-across-loop-iterations. inLoop: the input has
-// a class with a private member in a per-iteration part of a loop of the same function activation;
-// inHead: some such class is in a loop head (test / update / per-iteration head) where the repair below
-// cannot re-declare the temporaries.
-func privateClassInLoop(p *jsref.Program) (inLoop, inHead bool) {
-	walkRepeated(p.Body, false, false, func(n *jsref.Node, repeated, head bool) {
-		if (n.Type == jsref.NClassDecl || n.Type == jsref.NClassExpr) && repeated && classHasPrivateMember(n) {
-			inLoop = true
-			if head {
-				inHead = true
-			}
-		}
-	})
-	return
-}
-
-func allScopes(s *jsref.Scope, fn func(*jsref.Scope)) {
-	if s == nil {
-		return
-	}
-	fn(s)
-	for _, c := range s.Children {
-		allScopes(c, fn)
-	}
-}
-
-// repairLoopTemps re-declares, per iteration, every `var` temporary without initialiser that is declared
-// outside a loop body but assigned and used only inside it (esbuild's WeakMap / WeakSet / method-function
-// temporaries of a lowered class: `var _x; for (…) { _x = new WeakMap(); … }` becomes
-// `for (…) { let _x; _x = new WeakMap(); … }`).
-func repairLoopTemps(out string, po *jsref.Program) (string, int) {
-	noInit := map[int]bool{}
-	var bodies []*jsref.Node
-	jsutil.Walk(po.Body, func(n *jsref.Node) {
-		if n.Type == jsref.NVarDecl && n.Name == "var" {
-			for _, d := range n.List {
-				if d != nil && d.Type == jsref.NDeclarator && d.B == nil && d.A != nil && d.A.Type == jsref.NIdent {
-					noInit[d.A.Start] = true
-				}
-			}
-		}
-		if isLoop(n) && n.D != nil {
-			bodies = append(bodies, n.D)
-		}
-	})
-	perBody := map[*jsref.Node][]string{}
-	allScopes(po.Scopes, func(s *jsref.Scope) {
-		for _, d := range s.Decls {
-			if d.Kind != jsref.DeclVar || !noInit[d.Offset] || len(d.Refs) == 0 {
-				continue
-			}
-			assigned := false
-			for _, r := range d.Refs {
-				if r.IsAssignTarget && !r.IsRead {
-					assigned = true
-				}
-			}
-			if !assigned {
-				continue
-			}
-			var best *jsref.Node
-			for _, b := range bodies {
-				if d.Offset >= b.Start && d.Offset < b.End {
-					continue
-				}
-				ok := true
-				for _, r := range d.Refs {
-					if r.Offset < b.Start || r.Offset >= b.End {
-						ok = false
-						break
-					}
-				}
-				if ok && (best == nil || b.End-b.Start < best.End-best.Start) {
-					best = b
-				}
-			}
-			if best != nil {
-				perBody[best] = append(perBody[best], d.Name)
-			}
-		}
-	})
+// ---- C05-class-temporaries-shared-across-loop-iterations (input rewrite)
+// Signature: a class lies in a per-iteration part of a loop (of the same function activation). Rewrite:
+// every such class is evaluated inside its own arrow-function activation, `(() => class A {…})()`
+// (a declaration becomes `let A = (() => class A {…})();`), which gives esbuild's function-scoped
+// temporaries (WeakMap / WeakSet of private names, method functions, the class-expression temporary) one
+// activation per evaluation, as the per-evaluation private names of the original demand.
+func rewriteClassesInLoops(code string, p *jsref.Program) (string, int) {
 	var edits []edit
-	n := 0
-	for b, names := range perBody {
-		sort.Strings(names)
-		n += len(names)
-		decl := "let " + strings.Join(names, ", ") + "; "
-		if b.Type == jsref.NBlock {
-			edits = append(edits, edit{at: b.Start + 1, ins: " " + decl})
-		} else {
-			edits = append(edits, edit{at: b.Start, ins: "{ " + decl}, edit{at: b.End, ins: " }"})
+	var outer []*jsref.Node
+	walkRepeated(p.Body, false, func(n *jsref.Node, repeated bool) {
+		if !isClass(n) || !repeated {
+			return
 		}
+		for _, o := range outer {
+			if n.Start >= o.Start && n.End <= o.End {
+				return // nested in a class that is wrapped already (a nested edit would overlap)
+			}
+		}
+		outer = append(outer, n)
+		if n.Type == jsref.NClassDecl {
+			name := ""
+			if n.A != nil {
+				name = n.A.Name
+			}
+			if name == "" {
+				return
+			}
+			edits = append(edits, edit{at: n.Start, ins: "let " + name + " = (() => "}, edit{at: n.End, ins: ")();"})
+		} else {
+			edits = append(edits, edit{at: n.Start, ins: "(() => "}, edit{at: n.End, ins: ")()"})
+		}
+	})
+	if len(edits) == 0 {
+		return code, 0
 	}
-	if n == 0 {
-		return out, 0
+	out, ok := applyEdits(code, edits)
+	if !ok {
+		return code, 0
 	}
-	return applyEdits(out, edits), n
+	return out, len(edits) / 2
 }
 
-// superCallInStaticInit: signature of C05-static-initialiser-super-call-receiver: a static field
-// initialiser or static block (of a class with a heritage) contains, outside any non-arrow function, a
-// call or tagged template whose callee is `super.x` / `super[x]`.
+// ---- C05-static-initialiser-super-call-receiver (output repair)
+// Signature (input): a static field initialiser or static block of a class with a heritage contains,
+// outside any non-arrow function, a call or tagged template whose callee is `super.x` / `super[x]`.
 func superCallInStaticInit(p *jsref.Program) bool {
 	found := false
 	var scan func(n *jsref.Node)
@@ -219,11 +179,7 @@ func superCallInStaticInit(p *jsref.Program) bool {
 		case jsref.NFunctionDecl, jsref.NFunctionExpr, jsref.NClassDecl, jsref.NClassExpr:
 			return // own `this` / own home object (object-literal methods are NProperty → NFunctionExpr)
 		case jsref.NCall, jsref.NTemplate:
-			callee := n.A
-			for callee != nil && callee.Type == jsref.NParen {
-				callee = callee.A
-			}
-			if callee != nil && (callee.Type == jsref.NMember || callee.Type == jsref.NIndex) && callee.A != nil && callee.A.Type == jsref.NSuper {
+			if isSuperMember(n.A) {
 				found = true
 				return
 			}
@@ -237,7 +193,7 @@ func superCallInStaticInit(p *jsref.Program) bool {
 		}
 	}
 	jsutil.Walk(p.Body, func(n *jsref.Node) {
-		if (n.Type != jsref.NClassDecl && n.Type != jsref.NClassExpr) || n.B == nil {
+		if !isClass(n) || n.B == nil {
 			return
 		}
 		for _, m := range n.List {
@@ -257,8 +213,8 @@ func superCallInStaticInit(p *jsref.Program) bool {
 	return found
 }
 
-// repairSuperCallReceiver rewrites `__superGet(C, R, k).call(this, …)` where the receiver argument R is
-// not `this` (a static initialiser moved out of its class: R is the class) to `.call(R, …)`.
+// Repair: `__superGet(C, R, k).call(this, …)` where the receiver argument R is an identifier (a static
+// initialiser moved out of its class: R is the class) becomes `.call(R, …)`.
 func repairSuperCallReceiver(out string, po *jsref.Program) (string, int) {
 	var edits []edit
 	jsutil.Walk(po.Body, func(n *jsref.Node) {
@@ -278,12 +234,16 @@ func repairSuperCallReceiver(out string, po *jsref.Program) (string, int) {
 	if len(edits) == 0 {
 		return out, 0
 	}
-	return applyEdits(out, edits), len(edits)
+	res, ok := applyEdits(out, edits)
+	if !ok {
+		return out, 0
+	}
+	return res, len(edits)
 }
 
-// restWithIdentKey: signature of C05-object-rest-identifier-key-reread: an object pattern with a rest
-// element has a computed key that is a bare identifier which the program also writes (an assignment
-// target anywhere, or a name bound by that very pattern).
+// ---- C05-object-rest-identifier-key-reread (output repair)
+// Signature (input): an object pattern with a rest element has a computed key that is a bare identifier
+// which the program also writes (an assignment target anywhere, or a name bound by that very pattern).
 func restWithIdentKey(p *jsref.Program) bool {
 	written := map[string]bool{}
 	for _, a := range p.AssignedNames {
@@ -302,10 +262,7 @@ func restWithIdentKey(p *jsref.Program) bool {
 			if m == nil || m.Type != jsref.NProperty || !m.Has(jsref.FlagComputed) {
 				continue
 			}
-			k := m.A
-			for k != nil && k.Type == jsref.NParen {
-				k = k.A
-			}
+			k := stripParens(m.A)
 			if k == nil || k.Type != jsref.NIdent {
 				continue
 			}
@@ -330,9 +287,7 @@ func patternBinds(pat *jsref.Node, name string) bool {
 			if n.Name == name {
 				hit = true
 			}
-		case jsref.NAssign:
-			tgt(n.A)
-		case jsref.NSpread, jsref.NParen:
+		case jsref.NAssign, jsref.NSpread, jsref.NParen:
 			tgt(n.A)
 		case jsref.NArray:
 			for _, c := range n.List {
@@ -355,9 +310,9 @@ func patternBinds(pat *jsref.Node, name string) bool {
 	return hit
 }
 
-// repairRestKeyReread captures every identifier key that esbuild re-reads for the exclusion list of
-// __objRest: `{ [k]: t } = _a, r = __objRest(_a, [__restKey(k)])` becomes
-// `{ [_rk1 = k]: t } = _a, r = __objRest(_a, [__restKey(_rk1)])` (what esbuild itself emits for any key
+// Repair: every identifier key that esbuild re-reads for the exclusion list of __objRest is captured:
+// `{ [k]: t } = _a, r = __objRest(_a, [__restKey(k)])` becomes
+// `{ [_rk0 = k]: t } = _a, r = __objRest(_a, [__restKey(_rk0)])` (what esbuild itself emits for any key
 // expression other than an identifier).
 func repairRestKeyReread(out string, po *jsref.Program) (string, int) {
 	if strings.Contains(out, "_rk") {
@@ -413,90 +368,342 @@ func repairRestKeyReread(out string, po *jsref.Program) (string, int) {
 		break
 	}
 	edits = append(edits, edit{at: at, ins: "\nvar " + strings.Join(temps, ", ") + ";\n"})
-	return applyEdits(out, edits), len(temps)
+	res, ok := applyEdits(out, edits)
+	if !ok {
+		return out, 0
+	}
+	return res, len(temps)
 }
 
-type repairFinding struct {
+// ---- C05-lowered-async-arrow-loses-this-of-lowered-super (output repair)
+// Signature (input): an async arrow function contains a `super` property access. Repair: a lowered async
+// arrow `__async(null, A, function* () { … this … })` whose generator body uses `this` (only esbuild's
+// own super lowering puts one there: an arrow that mentions `this` itself is emitted with
+// `__async(this, …)`) gets `this` as its first argument.
+func superInAsyncArrow(p *jsref.Program) bool {
+	found := false
+	jsutil.Walk(p.Body, func(n *jsref.Node) {
+		if n.Type != jsref.NArrow || !n.Has(jsref.FlagAsync) {
+			return
+		}
+		jsutil.Walk(n, func(m *jsref.Node) {
+			if m.Type == jsref.NSuper {
+				found = true
+			}
+		})
+	})
+	return found
+}
+
+func usesThisDirectly(n *jsref.Node) bool {
+	found := false
+	var scan func(n *jsref.Node)
+	scan = func(n *jsref.Node) {
+		if n == nil || found {
+			return
+		}
+		switch n.Type {
+		case jsref.NThis:
+			found = true
+			return
+		case jsref.NFunctionDecl, jsref.NFunctionExpr, jsref.NClassDecl, jsref.NClassExpr:
+			return
+		}
+		scan(n.A)
+		scan(n.B)
+		scan(n.C)
+		scan(n.D)
+		for _, c := range n.List {
+			scan(c)
+		}
+	}
+	scan(n)
+	return found
+}
+
+func repairAsyncArrowThis(out string, po *jsref.Program) (string, int) {
+	var edits []edit
+	jsutil.Walk(po.Body, func(n *jsref.Node) {
+		if n.Type != jsref.NCall || n.A == nil || n.A.Type != jsref.NIdent || n.A.Name != "__async" || len(n.List) != 3 {
+			return
+		}
+		first, fn := n.List[0], n.List[2]
+		if first == nil || fn == nil || fn.Type != jsref.NFunctionExpr || out[first.Start:first.End] != "null" {
+			return
+		}
+		if usesThisDirectly(fn.B) {
+			edits = append(edits, edit{at: first.Start, del: first.End - first.Start, ins: "this"})
+		}
+	})
+	if len(edits) == 0 {
+		return out, 0
+	}
+	res, ok := applyEdits(out, edits)
+	if !ok {
+		return out, 0
+	}
+	return res, len(edits)
+}
+
+// ---- C05-raw-super-outside-method (input rewrite)
+// Signature: `super.x ??= v` / `||=` / `&&=`, or an optional chain link directly on a super property
+// (`super.m?.()`, `super.x?.y`). esbuild prints these with a literal `super` even where it has to lower
+// super property accesses (static initialisers moved out of the class, lowered async arrows), which is a
+// syntax error there. Rewrite: `(super.x ?? (super.x = v))`, `(super.m == null ? void 0 : super.m())`.
+func rewriteSuperShortCircuit(code string, p *jsref.Program) (string, int) {
+	var edits []edit
+	jsutil.Walk(p.Body, func(n *jsref.Node) {
+		switch {
+		case n.Type == jsref.NAssign && (n.Name == "??=" || n.Name == "||=" || n.Name == "&&=") && isSuperMember(n.A) && n.B != nil:
+			t := stripParens(n.A)
+			if t.Type != jsref.NMember {
+				return
+			}
+			T := code[t.Start:t.End]
+			edits = append(edits, edit{at: n.Start, del: n.End - n.Start, ins: "(" + T + " " + strings.TrimSuffix(n.Name, "=") + " (" + T + " = " + code[n.B.Start:n.B.End] + "))"})
+		case (n.Type == jsref.NCall || n.Type == jsref.NMember || n.Type == jsref.NIndex) && n.Has(jsref.FlagOptional) && n.A != nil && n.A.Type == jsref.NMember && n.A.A != nil && n.A.A.Type == jsref.NSuper:
+			T := code[n.A.Start:n.A.End]
+			rest := strings.TrimSpace(code[n.A.End:n.End])
+			if !strings.HasPrefix(rest, "?.") {
+				return
+			}
+			rest = rest[2:]
+			if n.Type == jsref.NMember {
+				rest = "." + rest
+			}
+			edits = append(edits, edit{at: n.Start, del: n.End - n.Start, ins: "(" + T + " == null ? void 0 : " + T + rest + ")"})
+		}
+	})
+	if len(edits) == 0 {
+		return code, 0
+	}
+	out, ok := applyEdits(code, edits)
+	if !ok {
+		return code, 0
+	}
+	return out, len(edits)
+}
+
+// ---- C05-new-target-in-lowered-static-block (input rewrite)
+// Signature: `new.target` inside a class static block (or static field initialiser), outside any
+// non-arrow function; its value is always undefined. Rewrite: `(void 0)`.
+func rewriteNewTargetInStaticInit(code string, p *jsref.Program) (string, int) {
+	var edits []edit
+	var scan func(n *jsref.Node)
+	scan = func(n *jsref.Node) {
+		if n == nil {
+			return
+		}
+		switch n.Type {
+		case jsref.NFunctionDecl, jsref.NFunctionExpr, jsref.NClassDecl, jsref.NClassExpr:
+			return
+		case jsref.NMeta:
+			if n.Name == "new.target" {
+				edits = append(edits, edit{at: n.Start, del: n.End - n.Start, ins: "(void 0)"})
+			}
+			return
+		}
+		scan(n.A)
+		scan(n.B)
+		scan(n.C)
+		scan(n.D)
+		for _, c := range n.List {
+			scan(c)
+		}
+	}
+	jsutil.Walk(p.Body, func(n *jsref.Node) {
+		if !isClass(n) {
+			return
+		}
+		for _, m := range n.List {
+			if m == nil {
+				continue
+			}
+			if m.Type == jsref.NStaticBlock {
+				for _, s := range m.List {
+					scan(s)
+				}
+			}
+			if m.Type == jsref.NField && m.Has(jsref.FlagStatic) {
+				scan(m.B)
+			}
+		}
+	})
+	if len(edits) == 0 {
+		return code, 0
+	}
+	out, ok := applyEdits(code, edits)
+	if !ok {
+		return code, 0
+	}
+	return out, len(edits)
+}
+
+// ---- C05-private-name-as-for-in-of-target (input rewrite)
+// Signature: the head of a for-in / for-of / for-await loop is an assignment target (no declaration) that
+// contains a private member access. Rewrite: `for (const __h of E) { (T = __h); BODY }`.
+func rewritePrivateLoopTargets(code string, p *jsref.Program) (string, int) {
+	var edits []edit
+	cnt := 0
+	jsutil.Walk(p.Body, func(n *jsref.Node) {
+		if (n.Type != jsref.NForIn && n.Type != jsref.NForOf) || n.A == nil || n.A.Type == jsref.NVarDecl || n.D == nil {
+			return
+		}
+		private := false
+		jsutil.Walk(n.A, func(m *jsref.Node) {
+			if m.Type == jsref.NPrivateName {
+				private = true
+			}
+		})
+		if !private {
+			return
+		}
+		cnt++
+		h := "__h" + string(rune('0'+cnt%10))
+		edits = append(edits,
+			edit{at: n.A.Start, del: n.A.End - n.A.Start, ins: "const " + h},
+			edit{at: n.D.Start, ins: "{ (" + code[n.A.Start:n.A.End] + " = " + h + "); "},
+			edit{at: n.D.End, ins: " }"})
+	})
+	if len(edits) == 0 || strings.Contains(code, "__h") {
+		return code, 0
+	}
+	out, ok := applyEdits(code, edits)
+	if !ok {
+		return code, 0
+	}
+	return out, cnt
+}
+
+// ---- C05-class-code-moved-out-loses-strict-mode (input rewrite)
+// Signature: the program is not strict mode code at top level and contains a class. Rewrite: a
+// "use strict" prologue. (Class bodies are strict by themselves, so a program whose native behaviour does
+// not change under the prologue must not change after lowering either; esbuild moves private methods,
+// static blocks and static field initialisers out of the class body into sloppy code.)
+func rewriteUseStrict(code string, p *jsref.Program) (string, int) {
+	for _, s := range p.Body.List {
+		if s != nil && s.Type == jsref.NExprStmt && s.Has(jsref.FlagDirective) {
+			if t := strings.Trim(code[s.Start:s.End], " ;"); t == `"use strict"` || t == `'use strict'` {
+				return code, 0
+			}
+			continue
+		}
+		break
+	}
+	hasClass := false
+	jsutil.Walk(p.Body, func(n *jsref.Node) {
+		if isClass(n) {
+			hasClass = true
+		}
+	})
+	if !hasClass {
+		return code, 0
+	}
+	return "\"use strict\";\n" + code, 1
+}
+
+type outputRepair struct {
 	id        string
-	applies   func(c Case, pi *jsref.Program) bool
+	signature func(pi *jsref.Program) bool
 	repair    func(out string, po *jsref.Program) (string, int)
-	staticOK  func(c Case, pi *jsref.Program) bool // optional: positions the repair cannot reach; signature alone decides
-	outputTag string                               // text the output must contain for the finding to be possible at all
+	outputTag string // text the output must contain for the finding to be possible at all
 }
 
-var repairFindings = []repairFinding{
-	{
-		id: "C05-private-names-shared-across-loop-iterations",
-		applies: func(c Case, pi *jsref.Program) bool {
-			in, _ := privateClassInLoop(pi)
-			return in
-		},
-		repair: repairLoopTemps,
-		staticOK: func(c Case, pi *jsref.Program) bool {
-			_, head := privateClassInLoop(pi)
-			return head
-		},
-		outputTag: "new Weak",
-	},
-	{
-		id:        "C05-static-initialiser-super-call-receiver",
-		applies:   func(c Case, pi *jsref.Program) bool { return superCallInStaticInit(pi) },
-		repair:    repairSuperCallReceiver,
-		outputTag: "__superGet(",
-	},
-	{
-		id:        "C05-object-rest-identifier-key-reread",
-		applies:   func(c Case, pi *jsref.Program) bool { return restWithIdentKey(pi) },
-		repair:    repairRestKeyReread,
-		outputTag: "__restKey(",
-	},
+type inputRewrite struct {
+	id      string
+	rewrite func(code string, pi *jsref.Program) (string, int)
 }
 
-// classifyByRepair returns the id of the listed finding that explains the failing case ("" = none):
-// the applicable repairs are tried one at a time and then all together; the case is explained when the
-// repaired output reproduces the reference trace.
-func classifyByRepair(c Case, out string, refTrace string) string {
+var outputRepairs = []outputRepair{
+	{"C05-static-initialiser-super-call-receiver", superCallInStaticInit, repairSuperCallReceiver, "__superGet("},
+	{"C05-object-rest-identifier-key-reread", restWithIdentKey, repairRestKeyReread, "__restKey("},
+	{"C05-lowered-async-arrow-loses-this-of-lowered-super", superInAsyncArrow, repairAsyncArrowThis, "__async(null"},
+}
+
+var inputRewrites = []inputRewrite{
+	{"C05-class-temporaries-shared-across-loop-iterations", rewriteClassesInLoops},
+	{"C05-raw-super-outside-method", rewriteSuperShortCircuit},
+	{"C05-new-target-in-lowered-static-block", rewriteNewTargetInStaticInit},
+	{"C05-private-name-as-for-in-of-target", rewritePrivateLoopTargets},
+	{"C05-class-code-moved-out-loses-strict-mode", rewriteUseStrict},
+}
+
+const maxRewriteDepth = 4
+
+// repairOutput applies every output repair whose signature matches; applied lists the findings whose
+// repair changed something.
+func repairOutput(c Case, out string) (repaired string, applied []string) {
+	pi, err := jsref.Parse(c.Code, jsref.Options{})
+	if err != nil {
+		return out, nil
+	}
+	cur := out
+	for _, f := range outputRepairs {
+		if !strings.Contains(cur, f.outputTag) || !f.signature(pi) {
+			continue
+		}
+		po, err := jsref.Parse(cur, jsref.Options{})
+		if err != nil {
+			return out, nil
+		}
+		next, n := f.repair(cur, po)
+		if n > 0 {
+			cur = next
+			applied = append(applied, f.id)
+		}
+	}
+	return cur, applied
+}
+
+// classify returns the id of the listed finding that explains the failing case ("" = none).
+func classify(c Case, out string, refTrace, gotTrace string, depth int) string {
+	// 1. output repairs (all applicable ones together: each is the identity on correct output). They
+	// recognise esbuild's helpers by name, so a case with minified identifiers is first re-transformed
+	// without identifier minification; that output must fail in exactly the same way.
+	if c.Minify {
+		o := c.options()
+		o.MinifyIdentifiers = false
+		r := api.Transform(c.Code, o)
+		out = ""
+		if len(r.Errors) == 0 {
+			if got, err := W.Script(string(r.Code), false); err == nil && got.Trace() == gotTrace {
+				out = string(r.Code)
+			}
+		}
+	}
+	if repaired, applied := repairOutput(c, out); out != "" && len(applied) > 0 {
+		if got, err := W.Script(repaired, false); err == nil && got.Trace() == refTrace {
+			return applied[0]
+		}
+	}
+	if depth >= maxRewriteDepth {
+		return ""
+	}
+	// 2. input rewrites, one at a time; the rewritten program is judged recursively, so several findings
+	// in one program are peeled off one after the other
 	pi, err := jsref.Parse(c.Code, jsref.Options{})
 	if err != nil {
 		return ""
 	}
-	var cand []repairFinding
-	for _, f := range repairFindings {
-		if strings.Contains(out, f.outputTag) && f.applies(c, pi) {
-			cand = append(cand, f)
+	for _, f := range inputRewrites {
+		code2, n := f.rewrite(c.Code, pi)
+		if n == 0 || code2 == c.Code {
+			continue
 		}
-	}
-	if len(cand) == 0 {
-		return ""
-	}
-	try := func(fs []repairFinding) bool {
-		cur := out
-		total := 0
-		for _, f := range fs {
-			po, err := jsref.Parse(cur, jsref.Options{})
-			if err != nil {
-				return false
+		ref2, err := W.Script(code2, false)
+		if err != nil || ref2.Trace() != refTrace {
+			continue // V8 does not confirm that the rewrite is an equivalent spelling here
+		}
+		c2 := c
+		c2.Code = code2
+		v2 := judgeDepth(c2, depth+1)
+		refused := false
+		for _, cl := range v2.Classes {
+			if strings.HasPrefix(cl, "esbuild-refused") {
+				refused = true
 			}
-			next, n := f.repair(cur, po)
-			cur = next
-			total += n
 		}
-		if total == 0 {
-			return false
-		}
-		got, err := W.Script(cur, false)
-		return err == nil && got.Trace() == refTrace
-	}
-	for _, f := range cand {
-		if try([]repairFinding{f}) {
-			return f.id
-		}
-	}
-	if len(cand) > 1 && try(cand) {
-		return cand[0].id
-	}
-	for _, f := range cand {
-		if f.staticOK != nil && f.staticOK(c, pi) {
+		if v2.Discard == "" && !refused && (v2.OK || v2.Known != "") {
 			return f.id
 		}
 	}
